@@ -7,12 +7,14 @@ import (
 	"io"
 	"math/rand"
 	"reflect"
+	"strings"
 	"testing"
 	"testing/iotest"
 
 	hio "github.com/hprose/hprose-golang/v3/io"
 	"verif/internal/corpus"
 	"verif/internal/eqv"
+	"verif/internal/gentypes"
 	"verif/internal/h"
 	"verif/internal/iox"
 )
@@ -121,6 +123,7 @@ func TestCheck(t *testing.T) {
 		"error outcome = both nil or both non-nil; error texts are not compared",
 		"readers that return an error other than io.EOF are not used (their outcome legitimately differs)",
 	})
+	longStreams(r)
 	light := r.Quick()
 	uni := corpus.Universe(r.Seed, 4, r.Pick(600, 20000), r.Pick(5, 7))
 	for _, ue := range uni {
@@ -144,6 +147,105 @@ func TestCheck(t *testing.T) {
 				c.Sub(int64(j), func() { valueStreams(c, ue, j, v, pick) })
 			}
 		})
+	}
+}
+
+// longStreams: containers and strings beyond the decoder's internal thresholds (buffer size
+// 256, reader-mode preallocation 1024) so that the grow-as-elements-arrive paths run.
+func longStreams(r *h.Run) {
+	mk := func(n int) []int {
+		x := make([]int, n)
+		for i := range x {
+			x[i] = i * 7
+		}
+		return x
+	}
+	ss := func(n int) []string {
+		x := make([]string, n)
+		for i := range x {
+			x[i] = fmt.Sprintf("s%d-中", i%50)
+		}
+		return x
+	}
+	mp := func(n int) map[int]string {
+		m := map[int]string{}
+		for i := 0; i < n; i++ {
+			m[i] = fmt.Sprint(i)
+		}
+		return m
+	}
+	nb := func(n int) gentypes.MyBytes {
+		b := make(gentypes.MyBytes, n)
+		for i := range b {
+			b[i] = byte(i)
+		}
+		return b
+	}
+	vals := []interface{}{
+		mk(1023), mk(1024), mk(1025), mk(1500), mk(2048), mk(2049), mk(5000),
+		ss(1025), ss(3000), mp(1025), mp(2500), nb(1025), nb(3000),
+		[]byte(strings.Repeat("0123456789", 500)), strings.Repeat("长", 3000), strings.Repeat("ab😀", 1000),
+		[][]int{mk(1100), mk(3), mk(1030)}, []interface{}{mk(1500), "tail", ss(1200), "tail"},
+		[]*gentypes.One{{A: 1}, nil}, func() []*gentypes.One {
+			x := make([]*gentypes.One, 1300)
+			x[7] = &gentypes.One{A: 7}
+			x[1299] = x[7]
+			return x
+		}(),
+	}
+	for i, v := range vals {
+		i, v := i, v
+		r.Case(fmt.Sprintf("long/%d/%T", i, v), func(c *h.Case) {
+			rng := c.Rand()
+			for _, simple := range []bool{true, false} {
+				data, err := safeEncode(v, simple)
+				if err != nil {
+					continue
+				}
+				for _, t := range []reflect.Type{reflect.TypeOf(v), tIface} {
+					compareLong(c, stream{data, t, 1, simple, "long"}, rng)
+				}
+			}
+		})
+	}
+}
+
+func compareLong(c *h.Case, s stream, rng *rand.Rand) {
+	// the usual comparison but with few, long-range fragmentations
+	ref := decodeAll(hio.NewDecoder(append([]byte(nil), s.data...)), s.t, s.k, s.simple, iox.Setting{})
+	if ref.panic != nil || ref.err != nil {
+		c.Violation("long-reference-failed", fmt.Sprintf("in-memory decode of own output failed: %v %v", ref.panic, ref.err), nil)
+		return
+	}
+	pats := [][]int{{1}, {3}, {7}, {255}, {256}, {257}, {1000}, {4096}, {1 << 20}, {5, 0, 300, 1}, {len(s.data) / 2, 1 << 20}, {1 + rng.Intn(700)}, {1 + rng.Intn(50), 1 + rng.Intn(3000)}}
+	for _, sizes := range pats {
+		for _, bs := range []int{256, 300, 4096} {
+			fr := &fragReader{data: append([]byte(nil), s.data...), sizes: sizes}
+			got := decodeAll(hio.NewDecoderFromReader(fr, bs), s.t, s.k, s.simple, iox.Setting{})
+			c.R.Eval(1)
+			rep := map[string]interface{}{"type": s.t.String(), "simple": s.simple, "sizes": sizes, "bufsize": bs, "stream_len": len(s.data), "stream_head": h.Hex(clipb(s.data, 200))}
+			if got.panic != nil {
+				c.Violation("stream-panic:"+h.PanicClass(fmt.Sprint(got.panic))+"@"+h.FirstRepoFrame(got.stack), fmt.Sprintf("reader-mode decode of a long stream panicked: %v\n%s", got.panic, h.TrimStack(got.stack)), rep)
+				continue
+			}
+			if got.err != nil {
+				c.Violation("error-outcome-differs:long", fmt.Sprintf("reader-mode decode of a %d-byte stream failed: %v (sizes %v, buffer %d)", len(s.data), got.err, sizes, bs), rep)
+				continue
+			}
+			var why string
+			pp, _ := h.Try(func() { why = eqv.Equal(ref.vals[0], got.vals[0]) })
+			if pp != nil {
+				why = fmt.Sprintf("comparison panicked: %v", pp)
+			}
+			if why != "" {
+				c.Violation("value-differs:long:"+s.t.String(), fmt.Sprintf("long stream (%d bytes) decodes differently from a reader (sizes %v, buffer %d) at %s", len(s.data), sizes, bs, why), rep)
+				continue
+			}
+			if !bytes.Equal(ref.remains, got.remains) {
+				c.Violation("position-differs:long", fmt.Sprintf("Remains() differs after a long stream: %d vs %d bytes", len(ref.remains), len(got.remains)), rep)
+			}
+			c.R.Distinct(fmt.Sprintf("long|%x|%v|%d", fnv64(s.data), sizes, bs))
+		}
 	}
 }
 
